@@ -63,6 +63,8 @@ def anomalous_cases(draw, tier):
     an = draw(intervals_strategy(n))
     if not an:
         an = [[0, n]] if draw(st.booleans()) else [[n - 1, n]]
+    if len(an) >= 2 and draw(st.sampled_from([True, False])):
+        an = draw(st.permutations(an))  # anomalies need not be listed in increasing order
     m_arg, v_arg, means, variances = draw(mean_var_args(p, len(an)))
     a_arg = an
     return {"fn": "anomalous", "n": n, "p": p, "anomalies": a_arg, "single_tuple": len(an) == 1 and draw(st.booleans()),
@@ -179,6 +181,7 @@ def outlier_cases(draw, tier):
     n = draw(st.integers(1, 60))
     p = draw(st.integers(1, 4))
     return {"fn": "outliers", "n": n, "p": p, "k": draw(st.integers(1, n)),
+            "frame": draw(st.sampled_from(["ndarray", "appended_column", "dict_of_columns", "concat", "generator"])),
             "size": draw(st.one_of(st.sampled_from([10.0, -5.0, 0.5]), st.floats(-50, 50).filter(lambda v: abs(v) > 1e-3))),
             "X": draw(D.exact_matrix(n, p))}
 
@@ -189,7 +192,21 @@ def check_outliers(case):
 
     n, p, k = case["n"], case["p"], case["k"]
     X = np.asarray(case["X"], dtype=float)
-    df = pd.DataFrame(X.copy(), columns=[f"var{j}" for j in range(p)])
+    cols = [f"var{j}" for j in range(p)]
+    how = case.get("frame", "ndarray")
+    if how == "appended_column" and p >= 2:      # multi-block frame
+        df = pd.DataFrame(X[:, :-1].copy(), columns=cols[:-1])
+        df[cols[-1]] = X[:, -1].copy()
+    elif how == "dict_of_columns":
+        df = pd.DataFrame({c: X[:, j].copy() for j, c in enumerate(cols)})
+    elif how == "concat" and p >= 2:
+        df = pd.concat([pd.DataFrame(X[:, :1].copy(), columns=cols[:1]), pd.DataFrame(X[:, 1:].copy(), columns=cols[1:])], axis=1)
+    elif how == "generator":
+        from skchange.datasets import generate_changing_data
+        df = generate_changing_data(n, [], [np.zeros(p)], [np.ones(p)], 7)
+        X = df.to_numpy().copy()
+    else:
+        df = pd.DataFrame(X.copy(), columns=cols)
     with sut("add_linspace_outliers"):
         out = add_linspace_outliers(df, k, case["size"])
     frame_checks(out, n, p, "add_linspace_outliers")
@@ -208,7 +225,7 @@ def check_outliers(case):
     gaps = np.diff(changed)
     if len(gaps) and gaps.max() - gaps.min() > 1:
         raise Violation("outlier rows are not evenly spaced (gaps differ by more than 1)", rows=changed.tolist())
-    return {"nontrivial": p > 1 or k >= 2, "classes": [f"p={p}"]}
+    return {"nontrivial": p > 1 or k >= 2, "classes": [f"p={p}", f"frame={how}"]}
 
 
 # ------------------------------------------------------------------ invalid arguments
@@ -268,7 +285,7 @@ FACETS = [
                 "vector / per-segment means and variances, seeds; non-trivial = p>1 or >= 2 segments"),
           n_quick=500, n_thorough=8000, shards_quick=4, shards_thorough=8),
     Facet(name="anomalous_data", check=check_anomalous, strategy=anomalous_cases,
-          rule=("generate_anomalous_data: disjoint anomalies incl. adjacent / length-1 / touching 0 and n (tuple or list), same "
+          rule=("generate_anomalous_data: disjoint anomalies incl. adjacent / length-1 / touching 0 and n, listed in any order (tuple or list), same "
                 "parameter forms; non-trivial = p>1 or >= 2 anomalies"),
           n_quick=500, n_thorough=8000, shards_quick=4, shards_thorough=8),
     Facet(name="alternating_data", check=check_alternating, strategy=alternating_cases,
@@ -276,7 +293,7 @@ FACETS = [
                 "non-trivial = p>1 or >= 2 segments"),
           n_quick=500, n_thorough=8000, shards_quick=4, shards_thorough=8),
     Facet(name="linspace_outliers", check=check_outliers, strategy=outlier_cases,
-          rule=("add_linspace_outliers on n x p integer frames, n_outliers 1..n, sizes; exactly n_outliers distinct evenly spaced "
+          rule=("add_linspace_outliers on n x p frames built from an array, a dict of columns, with an appended column, by concat (multi-block) or by a generator, n_outliers 1..n, sizes; exactly n_outliers distinct evenly spaced "
                 "rows from first to last shifted by outlier_size in every column; non-trivial = p>1 or >= 2 outliers"),
           n_quick=500, n_thorough=8000, shards_quick=4, shards_thorough=8),
     Facet(name="inconsistent_arguments", check=check_invalid, strategy=invalid_cases,
